@@ -304,7 +304,11 @@ def check_ownership(res, rule: str, writes: List[Write], state: str, owners: Dic
                 if prog.is_subclass(ci, oc) or prog.is_subclass(oci, cname):
                     return True
                 # metaclass methods write the attributes of the classes they create
-                if oc.endswith("Meta") or cname.endswith("Meta"):
+                mc = prog.metaclass_of(ci)
+                if mc is not None and (mc is oci or prog.is_subclass(mc, oc)):
+                    return True
+                omc = prog.metaclass_of(oci)
+                if omc is not None and (omc is ci or prog.is_subclass(omc, cname)):
                     return True
             return False
         found = [w for w in found if not (w.base_src in ("self", "cls") and w.fi is not None and w.fi.cls is not None
